@@ -13,6 +13,19 @@ import traceback
 from .core import Ledger
 
 VERIF = os.path.dirname(os.path.dirname(os.path.abspath(__file__)))
+
+
+def out_dir():
+    """Where evidence and replay files go: /verif for the tree the checks are registered for (/repo); a scratch
+    directory inside the copy when PYVC_REPO points the machinery at a mutated copy, so that such runs never overwrite
+    the evidence of the real tree."""
+    from . import source
+
+    if os.path.abspath(source.REPO) == "/repo":
+        return VERIF
+    d = os.path.join(source.REPO, ".pyvc-out")
+    os.makedirs(d, exist_ok=True)
+    return d
 VENV_PY = "/venv/bin/python"
 
 PY_SEMANTICS = (
@@ -95,13 +108,13 @@ class Check:
                     known_hits.append((b, hit))
                 else:
                     bounded_fail.append(b)
-        os.makedirs(os.path.join(VERIF, "replays"), exist_ok=True)
+        os.makedirs(os.path.join(out_dir(), "replays"), exist_ok=True)
         lines = []
         for o, _ in violations:
             path, found = self._write_replay(o)
             lines.append(f"VIOLATION property={self.pid} replay={path} obligation={o.name}" + ("" if found else " no-failing-input-found"))
         for b in bounded_fail:
-            path = os.path.join(VERIF, "replays", f"{self.pid}-bounded-{_san(b['name'])}.json")
+            path = os.path.join(out_dir(), "replays", f"{self.pid}-bounded-{_san(b['name'])}.json")
             data = {"property": self.pid, "obligation": "bounded:" + b["name"], "failures": b["failures"], "bound": b["bound"], "how_to_run": f"{VENV_PY} {VERIF}/replay.py <this file>"}
             found = True
             if b.get("replay_script"):
@@ -151,7 +164,7 @@ class Check:
             res = run_replay_script(rp["script"])
             data["native_replay"] = res
             found = res["reproduced"]
-        path = os.path.join(VERIF, "replays", f"{self.pid}-{_san(o.name)}.json")
+        path = os.path.join(out_dir(), "replays", f"{self.pid}-{_san(o.name)}.json")
         with open(path, "w") as fh:
             json.dump(data, fh, indent=1, default=str)
         return path, found
@@ -198,8 +211,8 @@ class Check:
             "wall_s": round(time.time() - self.t0, 2),
             "violations": len(violations) + len(bounded_fail),
         }
-        os.makedirs(os.path.join(VERIF, "evidence"), exist_ok=True)
-        with open(os.path.join(VERIF, "evidence", f"{self.pid}.json"), "w") as fh:
+        os.makedirs(os.path.join(out_dir(), "evidence"), exist_ok=True)
+        with open(os.path.join(out_dir(), "evidence", f"{self.pid}.json"), "w") as fh:
             json.dump(ev, fh, indent=1, default=str)
 
 
